@@ -68,8 +68,8 @@ def calcDifficulty (time : Nat) (p : Hdr) : Nat :=
   let x4 : Int := if x3 < 131072 then 131072 else x3
   let fake : Nat := if p.number ≥ bombDelayFromParent then p.number - bombDelayFromParent else 0
   let period := fake / 100000
-  let x5 : Int := if period > 1 then x4 + (2 ^ (period - 2) : Nat) else x4
-  x5.toNat
+  let bomb : Nat := if period > 1 then 2 ^ (period - 2) else 0
+  (x4 + (bomb : Int)).toNat
 
 def absDiff (a b : Nat) : Nat := if a ≥ b then a - b else b - a
 
